@@ -898,4 +898,5 @@ func c20(c *Ctx) {
 	}
 	c20Races(c)
 	c20PM(c)
+	c20Real(c) // last: no other ProtocolManager may be alive (process-wide event bus)
 }
